@@ -27,8 +27,8 @@ func ruleS17_1(c *Ctx, id string) {
 	V, P, R := c.V, c.P, c.R
 	R.Rule(id, "validate, lock, one transaction, commit(true), unlock - per SimpleNFS handler that reaches the journal", 45)
 	valid := c.fn(id, "simple.validInum")
-	fh2ino := c.fn(id, "simple.fh2ino")
-	if valid == nil || fh2ino == nil {
+	fh2ino := P.Func("simple.fh2ino") // (a one-line wrapper of MakeFh(...).Ino; may be written out)
+	if valid == nil {
 		return
 	}
 	jops := funcIs(V.ReadBuf, V.OverWrite, V.JrnlCommitWait, V.SetDirty)
@@ -50,8 +50,34 @@ func ruleS17_1(c *Ctx, id string) {
 		nH++
 		R.Analysed[FuncName(h)] = true
 		name := "simple." + h.Name()
-		// the handler's own code: its body and the function literals written inside it
-		fam := lexicalFamily(h)
+		// the handler's own code: its body, the function literals written inside it, and the private helpers it calls
+		// (with the function literals it hands them)
+		hScopes := scopesOf(h)
+		famSet := map[*ssa.Function]bool{}
+		var fam []*ssa.Function
+		addFam := func(f *ssa.Function) {
+			for _, g := range lexicalFamily(f) {
+				if !famSet[g] {
+					famSet[g] = true
+					fam = append(fam, g)
+				}
+			}
+		}
+		addFam(h)
+		for _, sc := range hScopes {
+			addFam(sc.Fn)
+		}
+		scopeOfFn := func(f *ssa.Function) Scope {
+			for _, s2 := range hScopes {
+				if s2.Fn == f {
+					return s2
+				}
+			}
+			return Scope{Fn: f, S: Subst{}}
+		}
+		lockArg := func(in ssa.Instruction) ssa.Value {
+			return resolveCaptured(scopeOfFn(in.Parent()).S.resolve(stripConv(argN(in, 0))))
+		}
 		var acq, rel []ssa.Instruction
 		for _, f := range fam {
 			acq = append(acq, P.CallsIn(f, funcIs(V.LockAcquire))...)
@@ -61,13 +87,16 @@ func ruleS17_1(c *Ctx, id string) {
 			R.Fail(id, name+"|one Acquire/Release pair", P.Pos(h.Pos()), "the handler locks its inode exactly once", fmt.Sprintf("%d Acquire, %d Release calls: journal operations run without (or with an unbalanced) inode lock", len(acq), len(rel)))
 			continue
 		}
-		v := resolveCaptured(argN(acq[0], 0))
-		R.Check(resolveCaptured(argN(rel[0], 0)) == v, id, name+"|releases the lock it took", P.Pos(rel[0].Pos()), "Release is applied to the same inode number as Acquire", "same value", "another inode's lock is released; this one stays locked for ever")
+		v := lockArg(acq[0])
+		R.Check(lockArg(rel[0]) == v, id, name+"|releases the lock it took", P.Pos(rel[0].Pos()), "Release is applied to the same inode number as Acquire", "same value", "another inode's lock is released; this one stays locked for ever")
 		// path by path (through the function literals the handler calls or hands down): the lock is released on
 		// every path, and the journal is touched only while it is held
 		followed := func(call *ssa.Call) bool {
 			if f, _ := closureCallee(call); f != nil {
 				return true
+			}
+			if hh := call.Call.StaticCallee(); hh != nil && famSet[hh] && hh != h {
+				return true // a private helper of the handler: the explorer walks into it
 			}
 			_, isP := call.Call.Value.(*ssa.Parameter)
 			return isP
@@ -81,18 +110,19 @@ func ruleS17_1(c *Ctx, id string) {
 			return false
 		}
 		px := NewPX()
+		px.FollowHelpers = true
 		heldAtReturn, outside := "", map[ssa.Instruction]bool{}
 		px.OnCall = func(st *PXState, ci ssa.CallInstruction) {
-			call, ok := ci.(*ssa.Call)
-			if !ok {
-				return
-			}
-			switch call.Call.StaticCallee() {
+			switch ci.Common().StaticCallee() {
 			case V.LockAcquire:
 				st.Flags["locked"] = true
 				return
-			case V.LockRelease:
+			case V.LockRelease: // (also as a deferred call, when the frame's defers run)
 				st.Flags["locked"] = false
+				return
+			}
+			call, ok := ci.(*ssa.Call)
+			if !ok {
 				return
 			}
 			if !followed(call) && touchesJ(call) && !st.Flags["locked"] {
@@ -113,15 +143,20 @@ func ruleS17_1(c *Ctx, id string) {
 		// v = fh2ino(args.<handle>)
 		cl, _ := v.(*ssa.Call)
 		fromArg := false
-		if cl != nil && cl.Call.StaticCallee() == fh2ino {
+		if cl != nil && fh2ino != nil && cl.Call.StaticCallee() == fh2ino {
 			if pm, _ := paramFieldPath(cl.Call.Args[0]); pm != nil {
+				fromArg = true
+			}
+		}
+		if mc, fl := fieldOfCallResult(v); mc != nil && fl == "Ino" && mc.Call.StaticCallee() != nil && mc.Call.StaticCallee().Name() == "MakeFh" {
+			// fh2ino written out: MakeFh(<handle argument>).Ino
+			if pm, _ := paramFieldPath(mc.Call.Args[0]); pm != nil {
 				fromArg = true
 			}
 		}
 		R.Check(fromArg, id, name+"|locks the inode the handle names", P.Pos(acq[0].Pos()), "the locked number is fh2ino(<handle argument>)", "value identity", "the lock taken is not the lock of the file operated on")
 		// directly, or through a helper that turns validInum's answer into a status that is tested here; the Acquire may
 		// sit in a local closure called after the test
-		hScopes := scopesOf(h)
 		asc := Scope{Fn: h, S: Subst{}}
 		for _, s2 := range hScopes {
 			if s2.Fn == acq[0].Parent() {
@@ -319,16 +354,28 @@ func ruleS17_1(c *Ctx, id string) {
 			if relPkg(cs.Caller) != "simple" {
 				continue
 			}
-			isH := false
-			root := cs.Caller
-			for root.Parent() != nil {
-				root = root.Parent()
-			}
-			for _, h := range V.SimpleProcs {
-				if h == root {
-					isH = true
+			var onlyHandlers func(f *ssa.Function, d int) bool
+			onlyHandlers = func(f *ssa.Function, d int) bool {
+				for f.Parent() != nil {
+					f = f.Parent()
 				}
+				for _, h := range V.SimpleProcs {
+					if h == f {
+						return true
+					}
+				}
+				// a private helper of package simple all of whose callers are (helpers of) handlers
+				if d > 2 || !isPrivateHelper(f) || len(staticSites[f]) == 0 {
+					return false
+				}
+				for _, site := range staticSites[f] {
+					if !onlyHandlers(site.Parent(), d+1) {
+						return false
+					}
+				}
+				return true
 			}
+			isH := onlyHandlers(cs.Caller, 0)
 			R.Check(isH, id, FuncName(cs.Caller)+"|lock map used by handlers only", P.Pos(cs.Instr.Pos()), "only the RPC handlers lock", "handler", "locking outside the handler skeleton")
 		}
 	}
@@ -788,8 +835,20 @@ func ruleS17_3(c *Ctx, id string) {
 				}
 				return
 			}
+			negd := false
+			for {
+				if u, isU := v.(*ssa.UnOp); isU && u.Op == token.NOT {
+					v, negd = u.X, !negd
+					continue
+				}
+				break
+			}
 			if bo, ok := v.(*ssa.BinOp); ok {
-				if w, pol, ok2 := classify(bo.Op, bo.X, bo.Y); ok2 && pol {
+				bop := bo.Op
+				if negd {
+					bop = negOp(bop) // !(inum >= nInode()) is inum < nInode()
+				}
+				if w, pol, ok2 := classify(bop, bo.X, bo.Y); ok2 && pol {
 					n++
 					for k := 0; k < 3; k++ {
 						if k != w && !established(k) {
